@@ -241,9 +241,9 @@ def insertm_ensures(m):
          'final(self).order@ == %s && %s.dom() == %s.dom().insert(%s)' % (OVERSIZE, MEMFITS, Q1, Q1, M1, M0, K)),
         ('survivors_unchanged', ['C01', 'C05'], 'forall|x: String| x != %s && #[trigger] %s.contains_key(x) ==> %s.contains_key(x) && %s[x] == %s[x]' % (K, M1, M0, M1, M0)),
         ('last_store_wins', ['C01', 'C11', 'C03', 'C09', 'C10', 'C06'], '%s.contains_key(%s) ==> %s[%s].value == value && %s[%s].frequency == 0 && taken_now(%s[%s].inserted_at)' % (M1, K, M1, K, M1, K, M1, K)),
-        ('fifo_lru_oldest_first', ['C07'], '(!%s && (old(self).policy is FIFO || old(self).policy is LRU)) ==> is_suffix(final(self).order@, %s)' % (OVERSIZE, Q1)),
+        ('fifo_lru_oldest_first', ['C07', 'C05'], '(!%s && (old(self).policy is FIFO || old(self).policy is LRU)) ==> is_suffix(final(self).order@, %s)' % (OVERSIZE, Q1)),
         # C08 under memory pressure: every evicted entry (the zero-hit newcomer included) had no more hits than any survivor
-        ('lfu_evicts_least_frequent', ['C08'], '(!%s && old(self).policy is LFU) ==> forall|x: String, y: String| #![trigger %s.contains_key(x), %s.contains_key(y)] '
+        ('lfu_evicts_least_frequent', ['C08', 'C05'], '(!%s && old(self).policy is LFU) ==> forall|x: String, y: String| #![trigger %s.contains_key(x), %s.contains_key(y)] '
          '%s.contains_key(x) && x != %s && !%s.contains_key(x) && %s.contains_key(y) && y != %s ==> %s[x].frequency <= %s[y].frequency' % (OVERSIZE, M0, M1, M0, K, M1, M1, K, M0, M0)),
         ('bound', ['C04'], '(old(self).limit is Some && old(self).limit->Some_0 >= 1 && old(self).order@.len() <= old(self).limit->Some_0) ==> final(self).order@.len() <= old(self).limit->Some_0'),
     ]
